@@ -394,6 +394,8 @@ def check_mask(o):
     s0 = state(mesh)
     mask = np.array(c["mask"], dtype=bool)
     res = o["res"]
+    _warm(mesh)
+    s0 = state(mesh)
     r = mesh.from_mask(mask) if c["kind"] == "vmask" else mesh.from_tri_mask(mask)
     if type(r) is not type(mesh):
         bad.append(("masking changed the class to " + type(r).__name__, {}, None))
@@ -417,6 +419,8 @@ def check_mask(o):
         wf = well_formed_shape(r)
         if wf:
             bad.append(("masked mesh malformed: " + wf, {}, None))
+    if not bad:
+        _geom_clauses(r, o["rgeom"], bad, "masked mesh: ")
     return bad
 
 
@@ -431,40 +435,47 @@ def _motions(d):
             (mt.Translation([2.5, -1.0, 4.0]), 1.0), (mt.UniformScale(3.0, 3), 3.0)]
 
 
-def check_geom(o):
-    bad = []
-    g = o["geom"]
-    mesh, _ = _mesh("TriMesh", o["m"])
+def _warm(mesh):
+    """ask every geometry query once (whatever a class memoises must not leak into meshes derived from it)"""
+    for q in ("tri_areas", "edge_indices", "edge_lengths", "unique_edge_indices", "unique_edge_lengths", "mean_edge_length",
+              "mean_tri_area", "boundary_tri_index", "tri_normals", "vertex_normals", "edge_vectors", "unique_edge_vectors"):
+        try:
+            getattr(mesh, q)()
+        except Exception:
+            pass
+
+
+def _geom_clauses(mesh, g, bad, pre=""):
     d = mesh.n_dims
     areas = np.sqrt(np.array([L.fl(x) for x in g["areas2"]])) / 2.0
     got = mesh.tri_areas()
     if not L.close(got, areas, TOL) or (got < 0).any():
-        bad.append(("tri_areas differ from the exact areas", {"got": got, "want": areas}, None))
+        bad.append((pre + "tri_areas differ from the exact areas", {"got": got, "want": areas}, None))
     E = np.array(g["edges"], dtype=int)
     ei = np.asarray(mesh.edge_indices(), dtype=int)
     el = np.sqrt(np.array([L.fl(x) for x in g["edgelen2"]]))
     key = lambda a: sorted(map(tuple, np.sort(a, axis=1).tolist()))
     if key(ei) != key(E):
-        bad.append(("edge_indices is not the three edges of every triangle", {"got": ei, "want": E}, None))
+        bad.append((pre + "edge_indices is not the three edges of every triangle", {"got": ei, "want": E}, None))
     else:
         got_l = mesh.edge_lengths()
         want_l = np.linalg.norm(mesh.points[ei[:, 1]] - mesh.points[ei[:, 0]], axis=1)
         if not L.close(np.sort(got_l), np.sort(el), TOL) or not L.close(got_l, want_l, TOL):
-            bad.append(("edge_lengths differ", {"got": got_l, "want": el}, None))
+            bad.append((pre + "edge_lengths differ", {"got": got_l, "want": el}, None))
     ue = np.asarray(mesh.unique_edge_indices(), dtype=int)
     want_ue = sorted(tuple(e) for e in g["uedges"])
     if sorted(tuple(sorted(e)) for e in ue.tolist()) != want_ue:
-        bad.append(("unique_edge_indices does not list each undirected edge once", {"got": ue, "want": want_ue}, None))
+        bad.append((pre + "unique_edge_indices does not list each undirected edge once", {"got": ue, "want": want_ue}, None))
     bt = np.asarray(mesh.boundary_tri_index())
     wb = np.array(g["boundary"], dtype=bool)
     if bt.shape != wb.shape or not np.array_equal(bt.astype(bool), wb):
-        bad.append(("boundary_tri_index does not flag exactly the triangles owning an unshared edge", {"got": bt, "want": wb}, None))
+        bad.append((pre + "boundary_tri_index does not flag exactly the triangles owning an unshared edge", {"got": bt, "want": wb}, None))
     N = np.array([[L.fl(x) for x in n] for n in g["normals"]])
     if d == 3:
         tn = mesh.tri_normals()
         un = N / np.linalg.norm(N, axis=1)[:, None]
         if not L.close(tn, un, 1e-9):
-            bad.append(("tri_normals are not the unit normals (b-a)x(c-a)", {"got": tn, "want": un}, None))
+            bad.append((pre + "tri_normals are not the unit normals (b-a)x(c-a)", {"got": tn, "want": un}, None))
         vn = mesh.vertex_normals()
         used = np.unique(mesh.trilist)
         acc = np.zeros_like(mesh.points)
@@ -472,7 +483,16 @@ def check_geom(o):
             acc[t] += n
         wvn = acc[used] / np.linalg.norm(acc[used], axis=1)[:, None]
         if not L.close(vn[used], wvn, 1e-9):
-            bad.append(("vertex_normals are not the normalised sums of the unit face normals", {"got": vn[used], "want": wvn}, None))
+            bad.append((pre + "vertex_normals are not the normalised sums of the unit face normals", {"got": vn[used], "want": wvn}, None))
+    return areas, el, N
+
+
+def check_geom(o):
+    bad = []
+    g = o["geom"]
+    mesh, _ = _mesh("TriMesh", o["m"])
+    d = mesh.n_dims
+    areas, el, N = _geom_clauses(mesh, g, bad)
     # invariances under rigid motion / uniform scaling, evaluated in the real code
     for t, sc in _motions(d):
         m2 = t.apply(mesh)
